@@ -80,6 +80,11 @@ CHECKS = {
          "Assumes gnet's id uniqueness among live connections and non-zero remote ports; bounded alphabet (2 IPs x 2 ports, mirrors {0,7}, listen ports {0,6000}, ids 0..3); TLC/SANY/Json module trusted.",
          "TLA+ spec + TLC exhaustive model checking; implementation-side explicit-state search validated edge by edge by TLC (trace validation), plus TLC-generated behaviours replayed into the real object",
          "DESIGN.md 4.4, 5 C24"),
+ "C25": ("sync", "model_checking",
+         "Sync.tla IntroVerdict is the introduction decision in the documented order (self connection, version, extra bytes absent/short, blockchain public key, verification parameters present and in range, user agent fits and is valid, genesis-hash tail length) and FirstMessageTolerated the pre-introduction gate. A real node (daemon.Daemon + visor) listens on 127.0.0.1; the harness connects over TCP, frames messages itself and sends, on fresh connections, introductions drawn over the whole decision table and each of the 12 message types as first message; it observes whether the node starts the protocol (asks for blocks) or disconnects. TLC evaluates each record: introduced only if the verdict is 'introduced'; anything else, and any non-tolerated first message, ends in a disconnect; a peer list before the introduction does not.",
+         "Whether a fully valid introduction is accepted is only used as a liveness guard of the driver (the property is one-directional); messages pipelined behind a refused one may still be processed before the close lands (observed, outside the statement). MCSync model-checks the protocol the gate protects.",
+         "TLA+ decision function evaluated by TLC on records of a real node driven over TCP; TLC model checking of the sync protocol",
+         "DESIGN.md 4.5, 5 C25, 9"),
  "C29": ("fn", "model_checking",
          "Fn.tla defines page bounds over exact naturals; MCPaging walks pages 1..N+2 for every list length <= 25 and page size <= 7 and checks that they concatenate to the list exactly once, that N is the reported count and later pages are empty. The real PageIndex.Cal and txnHashesContainer.Pagination (de-duplicated lists, page numbers up to 2^64-1 including wrap-around values) are recorded and TLC checks every record against the same definitions.",
          "The filter/sort steps before paging are not modelled (ordering and de-duplication are taken from the container); TLC/SANY/Json trusted.",
@@ -90,6 +95,11 @@ CHECKS = {
          "Sampling, not proof: a pure function over 2^128 arguments; boundary classes are listed in the evidence rule; TLC/SANY/Json trusted.",
          "TLA+ definitions (executable specification) evaluated by TLC on recorded calls of the real functions",
          "DESIGN.md 4.10, 5 C31, 9"),
+ "C33": ("sync", "model_checking",
+         "Sync.tla Process/Replies define what one GIVB message does (blocks at or below the head at arrival are skipped, the first block that cannot be appended ends the message, progress is announced and followed by a request above the new head). MCSync model-checks, for a network that loses, duplicates and reorders and an adversary with hostile payloads, that the follower only ever holds a gap-free prefix of what it was given and converges under fair periodic requests (liveness). TLC-simulated payload sequences (GenSync) and seeded ones (permutations, duplicates, forged and non-extending blocks) are sent to a real node over TCP with a PING/PONG barrier after each message; TLC checks head, chain-is-publisher-prefix and the node's replies per message; convergence runs answer the node's periodic requests with lost, duplicated and hostile answers first.",
+         "TCP localhost ordering; forged = signed by another key, alien = publisher-signed with a wrong parent (by construction); chain of 4-5 one-transaction blocks.",
+         "TLA+ spec + TLC model checking incl. liveness; TLC-generated behaviours replayed into a real node over TCP; record->validate by TLC",
+         "DESIGN.md 4.5, 5 C33, 9"),
 }
 
 NOT_APPLICABLE = {
